@@ -1,4 +1,5 @@
 from vcommon import Suite
+import coqreplay
 
 
 def rewrite_counter_imports(dst):
@@ -22,7 +23,7 @@ SPEC = {
     "suites": [
         Suite(name="conc", harness="vh_conc", runner="conc",
               model_deps=["theories/Model/CounterConc.vo"],
-              quick_n=400, thorough_n=12000, rewrite=rewrite_counter_imports, tags="verif,verifconc",
+              quick_n=400, thorough_n=12000, rewrite=rewrite_counter_imports, tags="verif,verifconc", coq_replay=coqreplay.conc,
               rule="each case is one scenario: 2-4 goroutines calling the real Counter.Add on one counter, plus "
                    "0-2 mapping changers (first open / rotation via the real rotate1, growth via the real "
                    "newCounter1 extension by another counter, or - scenario grow - a first page filled so that the counter's OWN first "
